@@ -521,3 +521,12 @@ Proof.
   intros F b (rank & Hr & Hu). apply (chain_nodup F rank); auto.
   unfold pile. apply chain_app; [apply ups_chain | now apply downs_chain].
 Qed.
+
+(* ---- a box's preconditions are met exactly when every preact returns a truthy value ---- *)
+Lemma box_predo_truthy : forall fs b is,
+  snd (box_predo_from fs b is) = forallb (fun i => truthy (preact_value fs b i)) is.
+Proof.
+  intros fs b is. induction is as [|i is IH]; simpl; auto.
+  unfold fails. destruct (truthy (preact_value fs b i)); simpl; auto.
+  destruct (box_predo_from fs b is) as [t r]. simpl in *. exact IH.
+Qed.
